@@ -286,7 +286,7 @@ pub fn vm_blocks(j: &Value) -> Result<Value, String> {
     let mut truth = scope.truth();
     stage!(truth, "mapfile", setup_mapfiles(&mut truth, &lang, j));
     let text = s(j, "body").ok_or("no body")?;
-    let mut block = front_or_return!(truth, &lang, text, false);
+    let mut block = front_or_return!(truth, &lang, text, true);
     stage!(truth, "desugar", passes::desugar_blocks::run(&mut block, truth.ctx(), lang.key));
     let instrs = stage!(truth, "lower", lower_block(&mut truth, &*lang.hooks, &block.0));
     let compile_diag = truth.get_captured_diagnostics().unwrap_or_default();
@@ -297,18 +297,14 @@ pub fn vm_blocks(j: &Value) -> Result<Value, String> {
     let t0 = truth::fmt::stringify(&a0);
     let t1 = truth::fmt::stringify(&a1);
     let diag = truth.get_captured_diagnostics().unwrap_or_default();
-    // re-lower both (through the same front passes a recompile would use)
-    let mut relower = |truth: &mut Truth, blk: &ast::Block| -> Result<Vec<llir::RawInstr>, truth::ErrorReported> {
-        let mut blk = blk.clone();
-        let ctx = truth.ctx();
-        passes::resolution::refresh_node_ids(&mut blk, &ctx.unused_node_ids)?;
-        passes::resolution::aliases_to_raw(&mut blk, ctx)?;
-        passes::resolution::compute_diff_label_masks(&mut blk, ctx)?;
-        passes::desugar_blocks::run(&mut blk, ctx, lang.key)?;
+    // re-lower both the way a recompile would: through their printed text
+    let mut relower = |truth: &mut Truth, text: &str| -> Result<Vec<llir::RawInstr>, truth::ErrorReported> {
+        let mut blk = front(truth, &lang, text, true).map_err(|(_, e)| e)?;
+        passes::desugar_blocks::run(&mut blk, truth.ctx(), lang.key)?;
         lower_block(truth, &*lang.hooks, &blk.0)
     };
-    let l0 = relower(&mut truth, &a0);
-    let l1 = relower(&mut truth, &a1);
+    let l0 = relower(&mut truth, &t0);
+    let l1 = relower(&mut truth, &t1);
     let relower_diag = truth.get_captured_diagnostics().unwrap_or_default();
     let orig = instrs_json(&instrs);
     let (l0j, l0ok) = match l0 { Ok(i) => (instrs_json(&i), true), Err(e) => { e.ignore(); (Value::Null, false) } };
